@@ -286,6 +286,15 @@ func (t *Table) MatchSet(ps []*Pat, set Set, env Env, yield func(Env) bool) bool
 	if len(ps) == 0 {
 		return yield(env)
 	}
+	// ~is(?v, p): the value bound to ?v (by the environment or an earlier
+	// pattern) matches p; not matched against the set
+	if ps[0].Kind == 'o' && ps[0].Name == "~is" && len(ps[0].Args) == 2 {
+		v, ok := env[ps[0].Args[0].Name]
+		if !ok {
+			return false
+		}
+		return t.Match(ps[0].Args[1], v, env, func(e Env) bool { return t.MatchSet(ps[1:], set, e, yield) })
+	}
 	for _, id := range set {
 		if t.Match(ps[0], id, env, func(e Env) bool {
 			return t.MatchSet(ps[1:], set, e, yield)
